@@ -9,10 +9,10 @@ import (
 )
 
 // Alphabets. Each letter is a byte string ("piece").
-var alphaEscape = []string{"a", " ", "\n", "?", "\xe2", "\x80", "\xb9", "\xba", "\xc3", "\x97"}
+var alphaEscape = []string{"a", " ", "\n", "?", "\xe2", "\x80", "\xb9", "\xba", "\xc3", "\x97", "\xb8", "\xbb"}
 var alphaMarkers = []string{"‹", "›", "×", "\n", "a", "\xe2", "\x80", "\xb9", "\xba"}
 var piecesHostile = []string{"a", "b", " ", "\n", "\n\n", "‹", "›", "×", "‹×›", "\xe2", "\x80", "\xb9", "\xba",
-	"\xe2\x80", "é", "?", "\xc3", "☃", "\xf0\x9f\x9b", "%", "0", "x", "\r\n", "\r"}
+	"\xe2\x80", "é", "?", "\xc3", "☃", "\xf0\x9f\x9b", "%", "0", "x", "\r\n", "\r", "‸", "※", "\xb8", "\xbb"}
 
 func recoverStr(f func() string) (out string) {
 	defer func() {
